@@ -6,6 +6,7 @@ CONSTANTS
   Runs = 3
   FirstVisitCounts = TRUE
   WaitForVisited = TRUE
+  UnvisitedIsTop = FALSE
   RootsAreEntries = TRUE
 INVARIANTS SweepBound FixedPoint Stable AllVisited
 PROPERTY Terminates
